@@ -115,6 +115,14 @@ func tvRunOpts(ctx *RunCtx, pkgs []*tv.Package, o tvOpts) error {
 			}
 			continue
 		}
+		if tr.V == "" && p.Isolated && strings.Contains(tr.Stderr, "could not load package") {
+			// cutting the case out of its package left something that does not compile (a defect of the
+			// isolation step, not of goose): this case is undecided, the others go on
+			mu.Lock()
+			ctx.Inconcl = append(ctx.Inconcl, fmt.Sprintf("%s: isolated program does not load: %s", p.Cases[0].ID, firstLines(tr.Stderr, 3)))
+			mu.Unlock()
+			continue
+		}
 		if tr.V == "" {
 			return fmt.Errorf("goose produced no output for package %s (exit %d): %s", p.Name, tr.Exit, firstLines(tr.Stderr, 10))
 		}
